@@ -784,6 +784,9 @@ class TOTP:
         elif key:
             # use existing key, encoded using specified <format>
             self.key = _decode_bytes(key, format)
+            if not self.key:
+                # e.g. a secret consisting only of separators / padding
+                raise ValueError("secret key contains no data")
 
         # enforce min key size
         if len(self.key) < self._min_key_size:
